@@ -779,3 +779,4 @@ def unit_mix_raw(twin=False):
     ok(r, "reach.read", n >= 1, "symex", "%d storing paths" % n, kind="vacuity", undecided=True)
     r.assumptions += ["stream insertion / extraction of int and double round-trip at the precision set (DBL_DIG-1: not decided here)", "std::map walk model; the option loop of read_raw is executed as one arbitrary iteration"]
     return r
+from props.c10_ext2 import UNITS as _U2; UNITS = UNITS + _U2
